@@ -23,7 +23,8 @@ def devices(h, faults=None, motor_delay=0.1, det_delay=0.05):
     sig = Sig("sig", lg, faults)
     fly = Flyer("fly", lg, faults, delay=det_delay)
     lm = LocMotor("lm", lg, faults, delay=motor_delay)
-    return {"m1": m1, "m2": m2, "det": det, "det2": det2, "sig": sig, "fly": fly, "lm": lm}
+    kd = {f"kdet{i}": Det(f"kdet{i}", lg, faults, delay=None, motors=[m1]) for i in range(4)}
+    return {"m1": m1, "m2": m2, "det": det, "det2": det2, "sig": sig, "fly": fly, "lm": lm, **kd}
 
 
 def P(h, *what):
@@ -147,6 +148,40 @@ def p_custom_mon(h, d):
 
     def scheduled():
         # the timers must be created on the loop thread, at the first message
+        yield Msg("null")
+        return (yield from body())
+
+    return scheduled()
+
+
+def p_mon2(h, d):
+    """monitor inside a run with long sleeps so that many updates fall in every phase; updates every 0.04 virtual s."""
+    sig, m1 = d["sig"], d["m1"]
+
+    def body():
+        loop = h.loop
+        handles = [loop.call_later(0.013 + 0.04 * k, sig.put, 100 + k) for k in range(40)]
+        try:
+            yield Msg("sleep", None, 0.1)
+            yield Msg("open_run")
+            yield Msg("checkpoint")
+            yield Msg("sleep", None, 0.1)
+            yield Msg("monitor", sig, name="sig_mon")
+            for k in range(3):
+                yield Msg("checkpoint")
+                yield Msg("set", m1, float(k), group="g")
+                yield Msg("wait", None, group="g")
+                yield Msg("sleep", None, 0.1)
+            yield Msg("unmonitor", sig)
+            yield Msg("sleep", None, 0.1)
+            yield Msg("close_run")
+            yield Msg("sleep", None, 0.1)
+            P(h, "body-complete")
+        finally:
+            for hd in handles:
+                hd.cancel()
+
+    def scheduled():
         yield Msg("null")
         return (yield from body())
 
@@ -466,6 +501,74 @@ def p_responses(h, d):
     return body()
 
 
+def make_keys_plan(seed, nkeys=3, dup=False, use_wrapper=False):
+    """nested / interleaved runs with run keys K0..Kn-1; run Ki only ever reads detector kdet<i>."""
+    import random
+
+    def builder(h, d):
+        rng = random.Random(seed)
+        m1 = d["m1"]
+        scripts = []
+        for k in range(nkeys):
+            sc = [("open", k)]
+            for _ in range(rng.randint(1, 3)):
+                sc.append(("point", k))
+            sc.append(("close", k))
+            scripts.append(sc)
+        # random interleaving preserving each script's order
+        order = []
+        idx = [0] * nkeys
+        while any(idx[k] < len(scripts[k]) for k in range(nkeys)):
+            k = rng.choice([k for k in range(nkeys) if idx[k] < len(scripts[k])])
+            order.append(scripts[k][idx[k]])
+            idx[k] += 1
+
+        def one(step, k):
+            key = f"K{k}"
+            if step == "open":
+                yield Msg("open_run", run=key, key=key)
+                yield Msg("checkpoint")
+            elif step == "close":
+                yield Msg("close_run", run=key)
+                yield Msg("checkpoint")
+            else:
+                yield Msg("checkpoint")
+                yield Msg("set", m1, float(rng.randint(0, 5)), group="mv")
+                yield Msg("wait", None, group="mv")
+                yield Msg("create", name="primary", run=key)
+                yield Msg("read", d[f"kdet{k}"], run=key)
+                yield Msg("save", run=key)
+
+        def body():
+            opened = set()
+            for pos, (step, k) in enumerate(order):
+                if use_wrapper and step == "point":
+                    yield from bpp.set_run_key_wrapper(_strip_key(one(step, k)), f"K{k}")
+                else:
+                    yield from one(step, k)
+                if step == "open":
+                    opened.add(k)
+                elif step == "close":
+                    opened.discard(k)
+                if dup and opened and pos == len(order) // 2:
+                    kk = sorted(opened)[0]
+                    try:
+                        yield Msg("open_run", run=f"K{kk}", key=f"K{kk}", dup=True)
+                        P(h, "dup-open-accepted", kk)
+                    except Exception as e:  # noqa: BLE001
+                        P(h, "dup-open-rejected", kk, e)
+            P(h, "body-complete")
+
+        return body()
+
+    return builder
+
+
+def _strip_key(plan):
+    """re-emit messages without their run key (for set_run_key_wrapper to fill in)."""
+    return bpp.msg_mutator(plan, lambda m: m._replace(run=None))
+
+
 CORPUS = {
     "count": p_count,
     "scan": p_scan,
@@ -475,6 +578,7 @@ CORPUS = {
     "custom": p_custom,
     "custom_mon": p_custom_mon,
     "mixed": p_mixed,
+    "mon2": p_mon2,
     "responses": p_responses,
     "neverclose": p_neverclose,
     "norun": p_norun,
@@ -483,6 +587,12 @@ CORPUS = {
     "clearcp": p_clearcp,
     "two_runs": p_two_runs,
     "rw_fail": p_run_wrapper_fail,
+    "keys_a": make_keys_plan(1, 2),
+    "keys_b": make_keys_plan(2, 3),
+    "keys_c": make_keys_plan(3, 4),
+    "keys_dup": make_keys_plan(4, 3, dup=True),
+    "keys_wrap": make_keys_plan(5, 3, use_wrapper=True),
+    "keys_dup2": make_keys_plan(6, 2, dup=True),
     "clearcp0": make_clearcp(0),
     "clearcp1": make_clearcp(1),
     "clearcp2": make_clearcp(2, "tryfinally"),
